@@ -495,6 +495,14 @@ def gen_C08(rng, tier):
             a, b = rng.choice(lp), rng.choice(lp + [lp[-1] + 1])
             prog.append(rng.choice([C.layer_s(0, a, b, F(1)), C.layer_v(0, [(a, b, F(2))]), C.layer_s(0, None, None, F(1)),
                                     C.layer_s(0, a, None, F(-1))]))
+        if k % 8 == 1:        # directed history: a copy and its original are layered apart, each keeps its own statistics
+            lp = leaf_points(f) or [F(0), F(1)]
+            if rng.random() < 0.5:
+                prog += [C.query(0, q) for q in rng.sample(["var", "mean", "integral"], 1)]
+            prog.append(rng.choice([C.un(1, "copy", 0), C.clip(1, 0, None, None), C.shift(1, 0, F(0))]))
+            a, b = rng.choice(lp), rng.choice(lp + [lp[-1] + 1])
+            prog.append(C.layer_s(rng.choice([0, 1]), a, b, rng.choice([F(1), F(2), F(-1)])))
+            prog += [C.query(1, "var"), C.query(1, "mean"), C.query(1, "value_sums"), C.query(1, "integral")]
         if rng.random() < 0.3:
             lo, hi = bounds(rng, f)
             prog.append(C.clip(0, 0, lo, hi))       # clipped functions
